@@ -25,7 +25,7 @@ fn spec() -> Spec {
             Kind { name: "paths", quick: 400, thorough: 10_000, serial: false },
             Kind { name: "cancel", quick: 150, thorough: 6_000, serial: false },
         ],
-        rule: "paths: synthetic cell (coarse meshes, non-wrapping limits) x collision-free start/goal pairs in the layouts free space / obstacle placed on the straight joint-space line between them / goal within one step of the start / tiny try budget, step sizes 2..12 degrees; every scenario is planned repeatedly (thread_rng cannot be seeded) and each returned path is checked offline: exact endpoints, every node reported free, hops <= 3 steps, nodes within limits, and provenance: every interior node must appear in the spy log as a collision query made by the planner. cancel: flag raised before the call => Err; flag raised by the spy at the k-th collision query (k swept) => no sampling event (constraints() call) may follow the raise and the result is Err unless the iteration in progress completed the connection. non-trivial = path with >= 3 nodes (paths) / cancellation that actually interrupted planning (cancel); distinct = hash(path)",
+        rule: "paths: synthetic cell (coarse meshes, non-wrapping limits) x collision-free start/goal pairs in the layouts free space / obstacle placed on the straight joint-space line between them / goal within one step of the start / tiny try budget, step sizes 2..12 degrees; every scenario is planned repeatedly (thread_rng cannot be seeded) and each returned path is checked offline: exact endpoints, every node reported free, hops <= 3 steps, nodes within limits, and provenance: every interior node must appear in the spy log as a collision query made by the planner. cancel: flag raised before the call => Err for each of three calls sharing the flag; after an interrupted call a second call sharing the still raised flag => Err; flag raised by the spy at the k-th collision query (k swept) => no sampling event (constraints() call) may follow the raise and the result is Err unless the iteration in progress completed the connection. non-trivial = path with >= 3 nodes (paths) / cancellation that actually interrupted planning (cancel); distinct = hash(path)",
         assumptions: vec![
             "the planner polls the flag once per iteration: 'no sampling after the raise' is the strongest form that is not racy against its own check point",
             "'reported free' is the same robot's collides()",
@@ -248,13 +248,20 @@ fn cancel(idx: u64, rng: &mut Rng, mon: &mut Mon, s: &Scene) {
     {
         let (robot, _spy) = build_spied(&s.cell, None);
         let planner = RRTPlanner { step_size_joint_space: s.step, max_try: s.max_try, debug: false };
+        // the caller raises the flag once and never lowers it: every call sharing it must fail (one flag
+        // is shared by several planners / calls, as the Cartesian planner does with its strategies)
         let stop = AtomicBool::new(true);
-        match guarded(|| planner.plan_rrt(&s.start, &s.goal, &robot, &stop)) {
-            Err(msg) => mon.violation("cancel:panic", "plan_rrt panicked", json!({"scene": scene_json(s), "panic": msg})),
-            Ok(Ok(path)) => mon.violation(&format!("cancel:pre-raised-flag-ignored:{}", s.layout), "a path was returned although the cancellation flag was raised before the call", json!({"scene": scene_json(s), "path_len": path.len()})),
-            Ok(Err(_)) => {
-                mon.held();
-                mon.count("cancel.pre_raised_ok");
+        for call_no in 0..3 {
+            match guarded(|| planner.plan_rrt(&s.start, &s.goal, &robot, &stop)) {
+                Err(msg) => mon.violation("cancel:panic", "plan_rrt panicked", json!({"scene": scene_json(s), "panic": msg})),
+                Ok(Ok(path)) => {
+                    mon.violation(&format!("cancel:pre-raised-flag-ignored:call{}:{}", call_no, s.layout), "a path was returned although the caller raised the cancellation flag before the call and never lowered it", json!({"scene": scene_json(s), "call": call_no, "path_len": path.len(), "flag_still_raised": stop.load(Ordering::SeqCst)}));
+                    break;
+                }
+                Ok(Err(_)) => {
+                    mon.held();
+                    mon.count("cancel.pre_raised_ok");
+                }
             }
         }
     }
@@ -297,6 +304,15 @@ fn cancel(idx: u64, rng: &mut Rng, mon: &mut Mon, s: &Scene) {
             Ok(Err(_)) => {
                 mon.held();
                 mon.nontrivial(hash_combine(idx, k ^ hash_f64s(&s.start)));
+                // the caller has not lowered the flag: a second call sharing it must fail as well
+                match guarded(|| planner.plan_rrt(&s.start, &s.goal, &robot, &stop)) {
+                    Ok(Ok(p2)) => mon.violation(&format!("cancel:raised-flag-ignored-by-next-call:{}", s.layout), "after a cancelled call, the next call sharing the still raised flag returned a path", detail(json!({"path_len": p2.len(), "flag_still_raised": stop.load(Ordering::SeqCst)}))),
+                    Ok(Err(_)) => {
+                        mon.held();
+                        mon.count("cancel.second_call_failed_too");
+                    }
+                    Err(msg) => mon.violation("cancel:panic", "plan_rrt panicked", detail(json!({"panic": msg}))),
+                }
             }
             Ok(Ok(path)) => {
                 // allowed only if the iteration in progress completed the connection; the path must still be valid
